@@ -12,6 +12,8 @@ its last `pending` write of an affinity, it has itself
   revision" — the write that invalidates a concurrent `releaseBlockAffinity` holding the
   old block revision).
 
+A BlockAffinity object is only ever CREATED in state `pending` (`getPendingAffinity`).
+
 `step22` threads this "licence" next to `Cas.step`.  Core Lean only.
 -/
 namespace CalicoVerif.C22
@@ -40,6 +42,9 @@ def licStep (l : Lic) (s : St) (c : Call) : Option Lic :=
     else some l
   | .aff _ _, _, .affSt .pending =>
     if ok then some { lic := upd l.lic c.t none, pre := upd l.pre c.t none } else some l
+  | .aff _ _, .create, .affSt _ =>
+    -- getPendingAffinity is the only creator of BlockAffinity objects: always `pending`
+    if ok then none else some l
   | .blk b, .create, .blkCreate a _ =>
     if ok then some { l with lic := upd l.lic c.t (some (a, b)) } else some l
   | .blk b, .create, _ =>
